@@ -81,6 +81,45 @@ fn verif_ds_view_two_chunks() {
     core::mem::forget(buffer);
 }
 
+// one large application chunk (> 64 KiB): a view anywhere inside it, up to 4 bytes long, points at
+// exactly those offsets of the chunk. The chunk is all zeroes (a 70 000-byte array with
+// position-dependent content drives CBMC beyond 18 GB, measured), so the check is on WHERE the
+// yielded slice points (offset from the chunk start), not on its content.
+const BIG_LEN: usize = 70_000;
+static BIG: [u8; BIG_LEN] = [0u8; BIG_LEN];
+
+#[cfg_attr(kani, kani::proof)]
+#[cfg_attr(kani, kani::unwind(6))]
+fn verif_ds_view_large_chunk() {
+    let head: u64 = kani::any();
+    kani::assume(head <= (1 << 62) - 1 - 100_000);
+    let mut buffer = Buffer {
+        chunks: VecDeque::with_capacity(2),
+        head: VarInt::new(head).unwrap(),
+        pending_len: VarInt::from_u8(0),
+    };
+    let _ = buffer.push(Bytes::from_static(&BIG));
+    let a: usize = kani::any();
+    let n: usize = kani::any();
+    kani::assume(n >= 1 && n <= 4 && a < BIG_LEN && a + n <= BIG_LEN);
+    let range: Interval<VarInt> =
+        (VarInt::new(head + a as u64).unwrap()..=VarInt::new(head + (a + n - 1) as u64).unwrap()).into();
+    let mut viewer = buffer.viewer();
+    let view = viewer.next_view(range, false);
+    assert!(view.len().as_u64() == n as u64);
+    let mut slices = 0;
+    for s in view.iter::<&[u8]>() {
+        assert!(s.len() == n);
+        let off = (s.as_ptr() as usize).wrapping_sub(BIG.as_ptr() as usize);
+        assert!(off == a);
+        slices += 1;
+    }
+    assert!(slices == 1);
+    kani::cover!(a >= 65_536, "view starts beyond 64 KiB into the chunk");
+    kani::cover!(a == 65_535 && n == 2, "view straddles the 64 KiB mark");
+    core::mem::forget(buffer);
+}
+
 // Buffer::release is NOT covered: measured out of reach for CBMC — even one fully concrete case
 // (chunks of 2 and 3 bytes, release at 3) exhausts memory during propositional reduction
 // (VecDeque pop_front/push_front + Bytes::advance + the debug integrity check); see DESIGN.md.
@@ -91,5 +130,6 @@ fn verif_ds_view_two_chunks() {
 fn verif_replay() {
     kani::replay(&[
         ("verif_ds_view_two_chunks", verif_ds_view_two_chunks),
+        ("verif_ds_view_large_chunk", verif_ds_view_large_chunk),
     ]);
 }
